@@ -197,6 +197,29 @@ def extract_clause_orders(src):
     }
 
 
+def extract_arith_order(src):
+    """which operand ArithmeticExpression.get_sql renders first (the collector is filled in that order)"""
+    tree = ast.parse(src)
+    g = _find_method(tree, "ArithmeticExpression", "get_sql")
+    marks = []
+    for n in ast.walk(g):
+        if isinstance(n, ast.Call) and n.args:
+            a0 = n.args[0]
+            if _is_self_attr(a0) and a0.attr in ("left", "right"):
+                f = n.func
+                renders = (isinstance(f, ast.Name) and f.id == "_operand_sql") or (isinstance(f, ast.Attribute) and f.attr == "get_sql")
+                if renders:
+                    marks.append((n.lineno, n.col_offset, a0.attr))
+        elif isinstance(n, ast.Call) and isinstance(n.func, ast.Attribute) and n.func.attr == "get_sql" \
+                and _is_self_attr(n.func.value) and n.func.value.attr in ("left", "right"):
+            marks.append((n.lineno, n.col_offset, n.func.value.attr))
+    marks.sort()
+    sides = [m[2] for m in marks]
+    if sorted(sides) != ["left", "right"]:
+        raise ExtractError("ArithmeticExpression.get_sql: expected exactly one rendering of self.left and one of self.right, found %r" % sides)
+    return sides[0] == "left"
+
+
 def placeholder_samples():
     """mode E: run the real collector classes at collector sizes 0..12, 98..100 and 1000"""
     import pypika.terms as T
@@ -226,6 +249,10 @@ def extract_c06_table():
     for k in ("update_order", "delete_order", "insert_values_order", "insert_select_head", "select_order", "pagination_order"):
         out.append("Definition %s : list clause := [%s]." % (k, "; ".join(orders[k])))
     out.append("Definition setop_order : list sclause := [%s]." % "; ".join(orders["setop_order"]))
+    with open(os.path.join(lib.REPO, "pypika", "terms.py")) as f:
+        tsrc = f.read()
+    out.append("(* ArithmeticExpression.get_sql renders self.left before self.right *)")
+    out.append("Definition arith_left_first : bool := %s." % B(extract_arith_order(tsrc)))
     out.append("")
     out.append("(* (class, len(_parameters), parameter.get_sql(), parameter.get_param_key(placeholder=that text)) *)")
     out.append("Definition ph_samples : list (style * nat * string * string) := [")
@@ -1286,7 +1313,44 @@ def oracle(case, outcome):
     i = j = 0
     n_auto = 0
     auto_texts, explicit_toks = [], []
+    # The inline renderer parenthesises an operand whose TEXT starts with a minus sign ("a"-(-1), -(-1), "a"-(-1*"b")); with a
+    # placeholder in front the text does not, so these parentheses are absent from the parameterised text ("a"-?).  They are
+    # skipped on the inline side: `guards` holds the inline parenthesis depth at which such a parenthesis was opened, its mate
+    # is the ')' that returns to that depth.
+    guards, idepth = [], 0
+
+    def consume(k):
+        nonlocal j, idepth
+        for t in I_[j:j + k]:
+            if t[0] == "op" and t[1] == "(":
+                idepth += 1
+            elif t[0] == "op" and t[1] == ")":
+                idepth -= 1
+        j += k
+
+    def skip_guard_closes():
+        nonlocal j, idepth
+        while guards and j < len(I_) and I_[j][0] == "op" and I_[j][1] == ")" and idepth - 1 == guards[-1]:
+            guards.pop()
+            idepth -= 1
+            j += 1
+
+    def value_fits(v, jj):
+        lits = literal_tokens(v)
+        seg = I_[jj:jj + len(lits)]
+        if len(seg) == len(lits) and all(tok_matches(a, b) for a, b in zip(lits, seg)):
+            return "ok", len(lits)
+        if isinstance(v, str) and jj < len(I_) and I_[jj][0] == "word" and I_[jj][1].lower() == "null" and v == "null":
+            return "none", 1
+        if isinstance(v, str) and _lex_eq(v, I_, jj):
+            return ("number" if _is_number_text(v) else "expr"), _lex_eq(v, I_, jj)
+        return None, 0
+
+    def starts_negative(v):
+        return (isinstance(v, (int, float, Decimal)) and not isinstance(v, bool) and v < 0) or (isinstance(v, str) and v.startswith("-"))
+
     while i < len(P_):
+        skip_guard_closes()
         tk = P_[i]
         is_style_ph = tk[0] == "ph" and ph_re.fullmatch(tk[1]) is not None
         same_inline = is_style_ph and j < len(I_) and I_[j][0] == "ph" and I_[j][1] == tk[1]
@@ -1294,24 +1358,20 @@ def oracle(case, outcome):
             pos = ppos[i]
             # which reading fits: a collector placeholder standing for the next collected value, or (when the very same
             # placeholder stands in the inline text) an explicit Parameter
-            v, how, adv = None, None, 0
+            v, how, adv, guard = None, None, 0, False
             try:
                 v = resolve(sty, params, tk[1], n_auto)
-                lits = literal_tokens(v)
-                seg = I_[j:j + len(lits)]
-                if len(seg) == len(lits) and all(tok_matches(a, b) for a, b in zip(lits, seg)):
-                    how, adv = "ok", len(lits)
-                elif isinstance(v, str) and j < len(I_) and I_[j][0] == "word" and I_[j][1].lower() == "null" and v == "null":
-                    how, adv = "none", 1
-                elif isinstance(v, str) and _lex_eq(v, I_, j):
-                    how, adv = ("number" if _is_number_text(v) else "expr"), _lex_eq(v, I_, j)
+                how, adv = value_fits(v, j)
+                if how is None and starts_negative(v) and j < len(I_) and I_[j][0] == "op" and I_[j][1] == "(":
+                    how, adv = value_fits(v, j + 1)
+                    guard = how is not None
                 resolved = True
             except (KeyError, IndexError, ValueError):
                 resolved = False
             if how is None and same_inline:
                 explicit_toks.append((tk[1], pos))
                 i += 1
-                j += 1
+                consume(1)
                 continue
             if sty == "numeric" and tk[1] != ":%d" % (n_auto + 1):
                 return viol("placeholder", pos, "numbering", "placeholder #%d is %s" % (n_auto + 1, tk[1]))
@@ -1333,14 +1393,18 @@ def oracle(case, outcome):
             elif how is None:
                 return viol(type(v).__name__, pos, "value-differs",
                             "substituting %r for placeholder #%d does not reproduce the inline token(s) %r" % (v, n_auto, [t[1] for t in I_[j:j + 2]]))
-            j += adv
+            if guard:
+                guards.append(idepth)
+                consume(1)
+            consume(adv)
             i += 1
             continue
         if j >= len(I_) or (tk[0], tk[1]) != (I_[j][0], I_[j][1]):
             return viol("text", ppos[i], "text-differs", "token %r of the parameterised text has no counterpart (inline has %r)"
                         % (tk[1], I_[j][1] if j < len(I_) else None))
         i += 1
-        j += 1
+        consume(1)
+    skip_guard_closes()
     if j != len(I_):
         return viol("text", base, "text-differs", "inline text continues with %r" % (I_[j][1],))
     if n_auto != len(params):
